@@ -31,7 +31,7 @@ MSS = 512
 
 def prepare(ctx):
     from py2lean import translate
-    translate.regenerate_all()
+    translate.regenerate_all(only=('TcpCC',))
 
 
 # ---- scripts ----------------------------------------------------------------------------------------------------
